@@ -91,6 +91,10 @@ class OutlineBase(plumpy.WorkChain):
         self.ctx['calls-of.%s' % name] = self.ctx.get('calls-of.%s' % name, 0) + 1
         # ... or a name that some function on the way may well use for a parameter of its own
         self.ctx['data'] = {'last': name}
+        if kind == 's' and self.inputs.get('midsave_keep') == idx:
+            # ... and this one is kept (by whoever asked for it: MIDSNAPS), to go on from should the instance be lost during this step
+            import pickle
+            MIDSNAPS.append(pickle.dumps(plumpy.Bundle(self)))
         if kind == 's' and self.inputs.get('midsave'):
             # the step saves the workchain from inside itself (e.g. an extra checkpoint under a tag); the saved state is not used
             plumpy.Bundle(self)
@@ -103,6 +107,9 @@ class OutlineBase(plumpy.WorkChain):
         if kind == 's' and self.inputs.get('emit'):
             self.out('o_%s_%d' % (name, idx), idx)
         return val
+
+
+MIDSNAPS = []
 
 
 class _Handle:
